@@ -1,5 +1,6 @@
 #![feature(rustc_private)]
-// Scratch prototype of the E1 fact extractor (not committed; API exploration).
+// E1 `mirfacts`: rustc_private driver exporting structured MIR + type facts as JSON.
+// Injected through RUSTC_WORKSPACE_WRAPPER under `cargo +nightly check`; see /verif/DESIGN.md section 2.
 extern crate rustc_abi;
 extern crate rustc_driver;
 extern crate rustc_hir;
@@ -117,8 +118,24 @@ impl<'tcx> Cx<'tcx> {
         if let Const::Val(cv, _) = c {
             match cv {
                 ConstValue::Scalar(s) => {
-                    if let Ok(int) = s.try_to_scalar_int() {
-                        let _ = write!(extra, ",\"bits\":\"{}\",\"size\":{}", int.to_bits_unchecked(), int.size().bytes());
+                    match s {
+                        mir::interpret::Scalar::Int(int) => {
+                            let _ = write!(extra, ",\"bits\":\"{}\",\"size\":{}", int.to_bits_unchecked(), int.size().bytes());
+                        }
+                        mir::interpret::Scalar::Ptr(ptr, _) => {
+                            let aid = ptr.provenance.alloc_id();
+                            if let Some(ga) = self.tcx.try_get_global_alloc(aid) {
+                                match ga {
+                                    mir::interpret::GlobalAlloc::Static(sdid) => {
+                                        let _ = write!(extra, ",\"static\":{}", js(&self.tcx.def_path_str(sdid)));
+                                    }
+                                    mir::interpret::GlobalAlloc::Function { instance } => {
+                                        let _ = write!(extra, ",\"fnptr\":{}", js(&self.tcx.def_path_str(instance.def_id())));
+                                    }
+                                    _ => {}
+                                }
+                            }
+                        }
                     }
                 }
                 ConstValue::ZeroSized => {
@@ -160,7 +177,7 @@ impl<'tcx> Cx<'tcx> {
                         let adt = self.tcx.adt_def(*did);
                         let v = adt.variant(*variant);
                         let fields: Vec<String> = v.fields.iter().map(|f| js(f.name.as_str())).collect();
-                        ("adt".to_string(), format!(",\"adt\":{},\"variant\":{},\"fields\":[{}]", js(&self.tcx.def_path_str(*did)), js(v.name.as_str()), fields.join(",")))
+                        ("adt".to_string(), format!(",\"adt\":{},\"variant\":{},\"vi\":{},\"discr\":{},\"fields\":[{}]", js(&self.tcx.def_path_str(*did)), js(v.name.as_str()), variant.as_usize(), if adt.is_enum() { js(&format!("{}", adt.discriminant_for_variant(self.tcx, *variant).val)) } else { "null".to_string() }, fields.join(",")))
                     }
                     AggregateKind::Closure(did, _) => ("closure".to_string(), format!(",\"def\":{}", js(&self.tcx.def_path_str(*did)))),
                     other => ("other".to_string(), format!(",\"d\":{}", js(&format!("{:?}", other)))),
@@ -179,6 +196,15 @@ impl<'tcx> Cx<'tcx> {
         }
     }
 
+    fn unwind_kind(&self, u: &UnwindAction) -> &'static str {
+        match u {
+            UnwindAction::Cleanup(_) => "\"cleanup\"",
+            UnwindAction::Continue => "\"continue\"",
+            UnwindAction::Unreachable => "\"unreachable\"",
+            UnwindAction::Terminate(_) => "\"terminate\"",
+        }
+    }
+
     fn bbopt(&self, b: &Option<BasicBlock>) -> String {
         b.map(|b| b.as_usize().to_string()).unwrap_or("null".into())
     }
@@ -188,6 +214,26 @@ impl<'tcx> Cx<'tcx> {
         let mut o = String::new();
         let _ = write!(o, "{{\"path\":{},\"promoted\":{},\"kind\":{},\"span\":{},\"arg_count\":{}",
             js(&tcx.def_path_str(did)), promoted.map(|p| p as i64).unwrap_or(-1), js(&format!("{:?}", tcx.def_kind(did))), self.span(body.span), body.arg_count);
+        // parent (for closures: the enclosing fn), generics
+        let parent = tcx.opt_parent(did).map(|p| tcx.def_path_str(p));
+        let _ = write!(o, ",\"parent\":{}", parent.map(|p| js(&p)).unwrap_or("null".into()));
+        if matches!(tcx.def_kind(did), DefKind::Closure) {
+            if let Some(ldid) = did.as_local() {
+                let caps: Vec<String> = tcx.closure_captures(ldid).iter().map(|c| js(&c.to_string(tcx))).collect();
+                let _ = write!(o, ",\"captures\":[{}]", caps.join(","));
+            }
+        }
+        {
+            let g = tcx.generics_of(did);
+            let mut names: Vec<String> = Vec::new();
+            let mut cur = Some(g);
+            while let Some(gg) = cur {
+                for p in gg.own_params.iter().rev() { names.push(js(p.name.as_str())); }
+                cur = gg.parent.map(|p| tcx.generics_of(p));
+            }
+            names.reverse();
+            let _ = write!(o, ",\"generics\":[{}]", names.join(","));
+        }
         // locals
         o.push_str(",\"locals\":[");
         for (i, (_l, d)) in body.local_decls.iter_enumerated().enumerate() {
@@ -243,7 +289,7 @@ impl<'tcx> Cx<'tcx> {
                 TerminatorKind::UnwindTerminate(_) => "{\"k\":\"terminate\"}".to_string(),
                 TerminatorKind::Drop { place, target, unwind, .. } => {
                     let pty = place.ty(body, tcx).ty;
-                    format!("{{\"k\":\"drop\",\"p\":{},\"t\":{},\"unwind\":{},\"ty\":{}}}", self.place(body, place), target.as_usize(), self.unwind(unwind), js(&format!("{}", pty)))
+                    format!("{{\"k\":\"drop\",\"p\":{},\"t\":{},\"unwind\":{},\"uk\":{},\"ty\":{}}}", self.place(body, place), target.as_usize(), self.unwind(unwind), self.unwind_kind(unwind), js(&format!("{}", pty)))
                 }
                 TerminatorKind::Assert { cond, expected, msg, target, unwind } => {
                     let kind = format!("{:?}", msg);
@@ -263,8 +309,8 @@ impl<'tcx> Cx<'tcx> {
                         _ => ("null".to_string(), "null".to_string(), "[]".to_string(), js(&format!("{}", fty))),
                     };
                     let a: Vec<String> = args.iter().map(|a| self.operand(body, &a.node)).collect();
-                    format!("{{\"k\":\"call\",\"callee\":{},\"resolved\":{},\"gargs\":{},\"fnptr_ty\":{},\"func\":{},\"args\":[{}],\"dest\":{},\"t\":{},\"unwind\":{},\"span\":{}}}",
-                        callee, resolved, gargs, selfty, self.operand(body, func), a.join(","), self.place(body, destination), self.bbopt(target), self.unwind(unwind), self.span(term.source_info.span))
+                    format!("{{\"k\":\"call\",\"callee\":{},\"resolved\":{},\"gargs\":{},\"fnptr_ty\":{},\"func\":{},\"args\":[{}],\"dest\":{},\"t\":{},\"unwind\":{},\"uk\":{},\"span\":{}}}",
+                        callee, resolved, gargs, selfty, self.operand(body, func), a.join(","), self.place(body, destination), self.bbopt(target), self.unwind(unwind), self.unwind_kind(unwind), self.span(term.source_info.span))
                 }
                 TerminatorKind::InlineAsm { targets, unwind, .. } => {
                     let ts: Vec<String> = targets.iter().map(|t| t.as_usize().to_string()).collect();
@@ -273,6 +319,7 @@ impl<'tcx> Cx<'tcx> {
                 other => format!("{{\"k\":\"other\",\"d\":{}}}", js(&format!("{:?}", other))),
             };
             o.push_str(&t);
+            let _ = write!(o, ",\"tspan\":{}", self.span(term.source_info.span));
             o.push('}');
         }
         o.push_str("]}");
@@ -319,7 +366,7 @@ struct Cb;
 impl rustc_driver::Callbacks for Cb {
     fn after_analysis<'tcx>(&mut self, _c: &rustc_interface::interface::Compiler, tcx: TyCtxt<'tcx>) -> Compilation {
         let krate = tcx.crate_name(rustc_span::def_id::LOCAL_CRATE).to_string();
-        let want = std::env::var("DRV_CRATES").unwrap_or("divan".into());
+        let want = std::env::var("MIRFACTS_CRATES").unwrap_or("divan".into());
         if !want.split(',').any(|w| w == krate) {
             return Compilation::Continue;
         }
@@ -328,21 +375,45 @@ impl rustc_driver::Callbacks for Cb {
         for ldid in tcx.mir_keys(()) {
             let did = ldid.to_def_id();
             let kind = tcx.def_kind(did);
-            if !matches!(kind, DefKind::Fn | DefKind::AssocFn | DefKind::Closure) {
-                continue;
-            }
-            let body = tcx.optimized_mir(did);
-            bodies.push(cx.body(did, body, None));
-            for (pi, pb) in tcx.promoted_mir(did).iter_enumerated() {
-                bodies.push(cx.body(did, pb, Some(pi.as_usize())));
+            match kind {
+                DefKind::Fn | DefKind::AssocFn | DefKind::Closure => {
+                    let body = tcx.optimized_mir(did);
+                    bodies.push(cx.body(did, body, None));
+                    for (pi, pb) in tcx.promoted_mir(did).iter_enumerated() {
+                        bodies.push(cx.body(did, pb, Some(pi.as_usize())));
+                    }
+                }
+                DefKind::Const { .. } | DefKind::AssocConst { .. } | DefKind::Static { .. } | DefKind::InlineConst | DefKind::AnonConst => {
+                    // constant initialisers: CTFE MIR (tables such as `TreeColumn::ALL`)
+                    let body = tcx.mir_for_ctfe(did);
+                    bodies.push(cx.body(did, body, None));
+                    for (pi, pb) in tcx.promoted_mir(did).iter_enumerated() {
+                        bodies.push(cx.body(did, pb, Some(pi.as_usize())));
+                    }
+                }
+                _ => {}
             }
         }
         let mut facts = Vec::new();
         ty_facts(tcx, &mut facts);
-        let out = format!("{{\"crate\":{},\"bodies\":[\n{}\n],\"facts\":[\n{}\n]}}", js(&krate), bodies.join(",\n"), facts.join(",\n"));
-        let dir = std::env::var("DRV_OUT").unwrap_or("/tmp/scr/facts".into());
+        let is_test = tcx.sess.opts.test;
+        let cfgs: Vec<String> = {
+            let mut v: Vec<String> = tcx.sess.config.iter().filter_map(|(k, val)| {
+                let k = k.to_string();
+                if k == "feature" || k == "test" || k == "debug_assertions" || k == "target_os" || k == "target_arch" || k == "miri" {
+                    Some(js(&match val { Some(v) => format!("{}={}", k, v), None => k }))
+                } else { None }
+            }).collect();
+            v.sort();
+            v
+        };
+        let out = format!("{{\"crate\":{},\"test\":{},\"cfg\":[{}],\"bodies\":[\n{}\n],\"facts\":[\n{}\n]}}", js(&krate), is_test, cfgs.join(","), bodies.join(",\n"), facts.join(",\n"));
+        let dir = std::env::var("MIRFACTS_OUT").expect("MIRFACTS_OUT not set");
         std::fs::create_dir_all(&dir).unwrap();
-        std::fs::write(format!("{}/{}.{}.json", dir, krate, std::process::id()), out).unwrap();
+        // one write per process; pid in the name so parallel rustc processes never interleave
+        let tmp = format!("{}/.{}.{}.tmp", dir, krate, std::process::id());
+        std::fs::write(&tmp, out).unwrap();
+        std::fs::rename(&tmp, format!("{}/{}.{}{}.json", dir, krate, if is_test { "test." } else { "" }, std::process::id())).unwrap();
         Compilation::Continue
     }
 }
